@@ -2,7 +2,7 @@
 (* C06 (and C05) - generator of the XDL dialect accepted by asl::Xdl/Json::decode beyond RFC 8259: identifier
    property names, '=' as well as ':', Y/N booleans, newline as item separator (with or without a comma), typed
    objects  Name{...}  (the name becomes the "$type" member), // and C-style comments wherever white space may
-   stand.  Same construction as JsonTextGen: a pushdown transition system that emits tokens and builds the value
+   stand, a line comment also at the very end of the text without a final line end.  Same construction as JsonTextGen: a pushdown transition system that emits tokens and builds the value
    the text denotes; non-default lexical choices are paid from the budget MaxVar.
 
    The language is the one documented for Xdl (and what XdlEncoder emits in its compact and pretty XDL modes);
@@ -101,7 +101,15 @@ Ws(i) == /\ act' = "Ws" /\ Budget(1) /\ (done \/ Room)
          /\ (IF text = <<>> THEN TRUE ELSE text[Len(text)] \notin {32, 9, 10, 13, 47})
          /\ text' = text \o WsVariants[i] /\ var' = var + 1
          /\ UNCHANGED <<stack, done, val, fin>>
-Next == \/ \E i \in 1..Len(Scal) : Scalar(i)
+\* a line comment that runs to the end of the text (only after the document is complete: whatever follows up to the next
+\* line end belongs to the comment, so the value stays what it is)
+EndComments == << <<47, 47, 99>>, <<47, 47>>, <<32, 47, 47, 32, 100, 111, 110, 101>> >>             \* //c   //   sp//sp done
+WsEnd(i) == /\ act' = "WsEnd" /\ done /\ Budget(1)
+            /\ (IF text = <<>> THEN TRUE ELSE text[Len(text)] # 47)
+            /\ text' = text \o EndComments[i] /\ var' = var + 1
+            /\ UNCHANGED <<stack, done, val, fin>>
+Next == \/ \E i \in 1..Len(EndComments) : WsEnd(i)
+        \/ \E i \in 1..Len(Scal) : Scalar(i)
         \/ BeginArr \/ End
         \/ \E i \in 1..Len(ClassToks) : BeginObj(i)
         \/ \E i \in 1..Len(KeyToks) : Key(i)
